@@ -37,6 +37,7 @@ type propCfg struct {
 	Builds   []string // build flavours to run: native, race, portable
 	Simd     []string // per-run -simd values (nil = tape)
 	Rule     string
+	RaceDiv  int // the race build runs total/RaceDiv worlds
 	Real     []string
 	Stub     []string
 }
@@ -68,6 +69,9 @@ func init() {
 		Rule: "one world per seed index: tape-generated IDL and value; 1-4 handles (origin as Node or Value, forks taken at tape-chosen moments); a history of 3-24 steps of SetByPath (existing / insert absent field, map key, one-past-the-end index), SetMany, ReplaceByPath, UnsetByPath (existing / absent), id- and name-addressed, with injected failing operations (wrong-kind path, type-mismatching replacement, error node) and GC+clobber at yields; after every step every live handle is decoded by the harness decoder and compared with its model tree. distinct_nontrivial = distinct (handle count x root kind x op-kind multiset) signatures"})
 	addCfg(&propCfg{ID: "C05", Level: "exploration", Quick: 30000, Thorough: 2000000,
 		Rule: "one world per seed index: knobs (DefaultNodeSliceCap, StoreChildrenByIdShreshold, StoreChildrenByIntHashShreshold) x options (recurse/lazy, StoreChildrenById, StoreChildrenByHash, NotScanParentNode, UseNativeSkip); 1-4 loads of tape-generated values into a PathNode that is fresh, pooled, freed+recycled, or reused (with ResetValue / ResetAll / nothing) after a previous larger/smaller load; after each load the tree is compared child by child (path, byte span) with the harness decoder's view, marshalled (Marshal / MarshalIntoBuffer with canary) and decoded again, then edited (SetField/SetByStr/SetByInt/clear/replace + lookups) and marshalled again. distinct_nontrivial = distinct (options x thresholds x reload kind) signatures"})
+	addCfg(&propCfg{ID: "C12", Level: "exploration", Quick: 20000, Thorough: 1500000, Builds: []string{"native", "race"}, RaceDiv: 5,
+		Rule: "one world per seed index: 2-4 simulated tasks, each a program of 3-10 calls (j2t/t2j Do and DoInto, GetByPath, Children, PathNode Load+Marshal, MarshalTo, descriptor lookups, Interface; 1 in 5 fed a truncated input so that it fails mid-way) on ONE shared descriptor, shared converter values and shared inputs placed in read-only pages. Phase 1: every call alone with pristine pools; phase 2a: the same calls back to back with dirty pools; phase 2b: the programs interleaved by the tape-driven scheduler at function-entry/pool yields with pool objects recycled across tasks (poisoned on Put); phase 3: churn calls recycling every pool, then every retained result is re-checked, inputs are checksummed and the descriptor graph deep-hashed. The race build runs the same worlds under ThreadSanitizer with a hand-off that is invisible to it. distinct_nontrivial = distinct (task count x switch rate x pool-switching x knob x flavour) signatures among worlds with at least one task switch",
+		Stub: append([]string{"goroutine scheduling -> exactly one runnable task, next task chosen by the tape at yields (blind hand-off, GOMAXPROCS=1)"}, stubsCommon...)})
 }
 
 func goEnv() []string {
@@ -185,7 +189,7 @@ func workerEnv() []string {
 	if v := os.Getenv("DYNSIM_SELFTEST_GOMAXPROCS"); v != "" {
 		gmp = v
 	}
-	env = append(env, "GOMAXPROCS="+gmp, "GODEBUG=clobberfree=1", "GOGC=off", "GORACE=halt_on_error=0 exitcode=66 log_path=stderr")
+	env = append(env, "GOMAXPROCS="+gmp, "GODEBUG=clobberfree=1", "GOGC=off", "GORACE=halt_on_error=1 exitcode=66")
 	return env
 }
 
@@ -621,8 +625,8 @@ func cmdCheck(args []string) int {
 		tree, ovst = th, st
 		r := &runner{cfg: cfg, tier: *tier, seed: seed, bin: bin, build: sp.build, simd: sp.simd, tree: th, deadline: start.Add(wall), digests: map[uint64]string{}}
 		n := uint64(total)
-		if sp.build == "race" {
-			n = uint64(total)
+		if sp.build == "race" && cfg.RaceDiv > 1 {
+			n = uint64(total / cfg.RaceDiv)
 		}
 		r.run(n, *workers)
 		// one replay file per distinct (class, known-finding) : crash classes are shrunk out of
